@@ -18,6 +18,10 @@ pub struct Case {
     pub txs: Vec<(u8, u8, bool)>,
     /// key list of the light client
     pub keylist: Vec<u8>,
+    /// per transaction: the txs_replacements field its signer put into it (absent / other = 1;
+    /// 0, 2 and 3 are consensus-valid on any transaction)
+    #[serde(default)]
+    pub repl: Vec<u8>,
 }
 
 fn build_full(case: &Case) -> Block {
@@ -74,6 +78,12 @@ fn build_full(case: &Case) -> Block {
         } else {
             t.data = vec![i as u8; (i % 5) * 3];
         }
+        t.txs_replacements = match case.repl.get(i) {
+            Some(0) => 0,
+            Some(2) => 2,
+            Some(3) => 3,
+            _ => 1,
+        };
         t.sign(&p.1);
         b.transactions.push(t);
     }
@@ -111,7 +121,10 @@ pub fn run_case(case: &Case) -> (Vec<(String, String)>, Info) {
     };
     info.placeholders = lite.transactions.iter().filter(|t| t.transaction_type == TransactionType::SPV).count();
     info.merged = lite.transactions.iter().filter(|t| t.transaction_type == TransactionType::SPV && t.txs_replacements > 1).count();
-    let merged_s = if info.merged > 0 { "merged" } else { "unmerged" };
+    // an omitted transaction whose own txs_replacements field is >= 2 stands for that many leaves in
+    // the full block's commitment; judged under its own key
+    let omitted_many = full.transactions.iter().any(|t| !touches(t, &keys) && t.txs_replacements >= 2);
+    let merged_s = if omitted_many { "omitted_tx_with_several_leaves" } else if info.merged > 0 { "merged" } else { "unmerged" };
     // header, id, hash, signature
     if lite.id != full.id || lite.hash != full.hash || lite.signature != full.signature {
         v.push(("C18|identity_fields_differ".into(), "lite block id/hash/signature differ from the full block".into()));
@@ -235,14 +248,14 @@ fn eval(c: &mut Ctx, case: &Case, counting: bool) -> Vec<(String, String)> {
 }
 
 pub fn run(ctx: &mut Ctx) {
-    ctx.rule = "blocks of 0..24 signed transactions (incl. golden tickets) with owners from a small key set and a generated key list; exhaustive: for n <= N transactions every one of the 2^n patterns of which transactions touch the key list (hence every pattern of adjacent placeholders to merge), random beyond. oracle: id, hash, signature and every header field of the lite block equal the full block's; every transaction paying to or spending from a listed key is contained unchanged and in order; placeholders account for exactly the omitted transactions; the commitment recomputed from the lite block's transactions equals the header's, both as generated and after the lite block crossed the wire format; the hash survives the wire. (b) the HTTP route of saito-rust that serves lite blocks: the real warp server of saito_rust::network_controller is started on 127.0.0.1 over generated block files (a fresh server per sequence); generated sequences of requests for a client key (hex / base58), key-list updates of the requesting peer and requests for unknown blocks; every served answer must be byte-identical to generate_lite_block(registered key list + key) of the stored block. non-trivial = (a) at least one placeholder and one contained transaction, (b) a key-list change between two requests for one block; distinct by case digest".into();
+    ctx.rule = "blocks of 0..24 signed transactions (incl. golden tickets; in half of the random blocks the signers set txs_replacements to 0, 2 or 3 on some transactions) with owners from a small key set and a generated key list; exhaustive: for n <= N transactions every one of the 2^n patterns of which transactions touch the key list (hence every pattern of adjacent placeholders to merge), random beyond. oracle: id, hash, signature and every header field of the lite block equal the full block's; every transaction paying to or spending from a listed key is contained unchanged and in order; placeholders account for exactly the omitted transactions; the commitment recomputed from the lite block's transactions equals the header's, both as generated and after the lite block crossed the wire format; the hash survives the wire. (b) the HTTP route of saito-rust that serves lite blocks: the real warp server of saito_rust::network_controller is started on 127.0.0.1 over generated block files (a fresh server per sequence); generated sequences of requests for a client key (hex / base58), key-list updates of the requesting peer and requests for unknown blocks; every served answer must be byte-identical to generate_lite_block(registered key list + key) of the stored block. non-trivial = (a) at least one placeholder and one contained transaction, (b) a key-list change between two requests for one block; distinct by case digest".into();
     // exhaustive touch patterns: transaction i touches the list iff bit i of the pattern is set
     let nmax = ctx.tier.pick(8usize, 11);
     let mut count = 0u64;
     for n in 0..=nmax {
         for pat in 0..(1u32 << n) {
             let txs: Vec<(u8, u8, bool)> = (0..n).map(|i| if (pat >> i) & 1 == 1 { (0, 1, false) } else { (2, 3, false) }).collect();
-            let case = Case { txs, keylist: vec![0] };
+            let case = Case { txs, keylist: vec![0], repl: vec![] };
             count += 1;
             for (k, w) in eval(ctx, &case, true) {
                 ctx.violation(&k, w, json!({"check": "exhaustive_touch_patterns", "case": case}));
@@ -250,7 +263,7 @@ pub fn run(ctx: &mut Ctx) {
         }
     }
     ctx.extra.insert("exhaustive_subspace".into(), json!({"transactions_up_to": nmax, "patterns": count}));
-    let strat = (proptest::collection::vec((0u8..5, 0u8..5, prop_oneof![9 => Just(false), 1 => Just(true)]), 0..25), proptest::collection::vec(0u8..6, 0..4)).prop_map(|(txs, keylist)| Case { txs, keylist });
+    let strat = (proptest::collection::vec((0u8..5, 0u8..5, prop_oneof![9 => Just(false), 1 => Just(true)]), 0..25), proptest::collection::vec(0u8..6, 0..4), prop_oneof![1 => Just(vec![]), 1 => proptest::collection::vec(prop_oneof![5 => Just(1u8), 3 => Just(0u8), 1 => Just(2u8), 1 => Just(3u8)], 0..25)]).prop_map(|(txs, keylist, repl)| Case { txs, keylist, repl });
     let cases = ctx.tier.pick(6000u32, 60_000);
     pbt_run(ctx, "random_blocks", cases, strat, |c, case, counting| eval(c, case, counting));
     // (b) the route of saito-rust that serves lite blocks, over real HTTP
